@@ -96,6 +96,7 @@ def run(F, chk):
                            "(srcNif, srcShape and values derived from them) is assigned to or has a modifying method called on it")
     R2 = chk.rule("R14.2", "every Clone() of a shape in NifFile is followed on all paths by SetGeomData with a block looked up in the "
                            "destination header")
+    R4 = chk.rule("R14.4", "a reference or index read from a source-model object is never resolved against the destination header")
     R3 = chk.rule("R14.3", "CloneChildren consults all three enumerators of the cloned block and rewrites references to ids returned "
                            "by this header's AddBlock, re-registers strings with this header and rebinds pointers")
 
@@ -117,9 +118,27 @@ def run(F, chk):
             tainted[p["id"]] = p["name"]
         # in the parent too (captured by reference in lambdas)
         scopes = [parent, fn] if parent else [fn]
+        # which local of the parent holds this lambda (to bind the lambda's parameters at its call sites)
+        lam_var = None
+        if parent:
+            for n in walk(parent.get("body") or {}):
+                if n["k"] == "Decl":
+                    for v in n.get("vars", []):
+                        if any(x["k"] == "Lambda" and x.get("fid") == fn["id"] for x in walk(v.get("init") or {})):
+                            lam_var = v["id"]
         changed = True
         while changed:
             changed = False
+            if lam_var is not None:
+                for sc in scopes:
+                    for n in walk(sc.get("body") or {}):
+                        if n["k"] == "OpCall" and n.get("op") == "()" and n.get("args") and is_node(n["args"][0]) and \
+                                n["args"][0]["k"] == "Ref" and n["args"][0].get("id") == lam_var:
+                            for i, a in enumerate(n["args"][1:]):
+                                if i < len(fn.get("params", [])) and fn["params"][i]["id"] not in tainted and \
+                                        is_node(a) and _derives_from_source(a, tainted):
+                                    tainted[fn["params"][i]["id"]] = fn["params"][i]["name"]
+                                    changed = True
             for sc in scopes:
                 for n in walk(sc.get("body") or {}):
                     cands = []
@@ -138,6 +157,19 @@ def run(F, chk):
                             tainted[vid] = name
                             changed = True
         checked = 0
+        # R14.4: a reference / index taken from a source-model object is resolved against the *source* header
+        for n in walk(fn.get("body") or {}):
+            if n["k"] == "Call" and (n.get("short") or "").startswith(("GetBlock", "GetBlockTypeStringById", "IsBlockReferenced")) and \
+                    n.get("cls") == "nifly::NiHeader" and is_node(n.get("recv")) and _rooted_at_this(n["recv"]) and n.get("args"):
+                a = n["args"][0]
+                root = _root_ref(a)
+                bad = root is not None and root["id"] in tainted
+                chk.instance(R4, ok=not bad, sample={"fn": fn["name"], "lookup": show(n)[:70], "source_derived_argument": bad})
+                if bad:
+                    chk.violation("R14.4", "C14/R14.4:%s:%s" % (fn["name"].split("@")[0], show(n)[:50]), where(fn, n),
+                                  "`%s` looks up, in the destination header, a reference that was read from the source model "
+                                  "(through `%s`): block indices of the two models are unrelated, so the wrong block or none is found" % (
+                                      show(n)[:70], tainted[root["id"]]))
         for n in walk(fn.get("body") or {}):
             tgt, how = None, None
             if n["k"] == "Assign":
@@ -165,6 +197,7 @@ def run(F, chk):
                               "`%s` is reached from the source model (through `%s`) and %s in %s: cloning modifies the model it "
                               "copies from" % (show(tgt)[:60], tainted[root["id"]], how, fn["name"]))
     chk.floor(R1, 15)
+    chk.floor(R4, 2)
 
     # ---------------------------------------------------------------- R14.2
     for fn in sorted(F.fns.values(), key=lambda f: f["id"]):
